@@ -56,7 +56,30 @@ type Succ struct {
 	Result  string
 	Key     string
 	Choices []int
+	Tag     string // optional model tag of the transition (see Tagger)
+	Proj    string // optional projection of the target state that twin states must share
 }
+
+// Tagger is an optional interface of a Model: a transition tagged "twin" declares that its source and target
+// states must answer every later event identically (differential oracle evaluated by the coordinator).
+type Tagger interface {
+	Tag(ev, res string) string
+	// Projection renders the part of the current state that two twin states must have in common.
+	Projection() string
+}
+
+var lastTag, lastProj string
+
+// TwinSpec configures the coordinator's differential oracle over "twin" transitions.
+type TwinSpec struct {
+	Property, Predicate, Key string
+	// Compare reports whether the results of this event are to be compared in the two states.
+	Compare func(ev string) bool
+}
+
+// Twin, when set, makes the search compare the result sets of every common event of the two end states of a
+// transition tagged "twin".
+var Twin *TwinSpec
 
 // JobResult is the worker's answer.
 type JobResult struct {
@@ -98,8 +121,13 @@ func runPath(m Model, path []string, choices []int, res *JobResult, check bool) 
 		}
 		vsched.Quiet(true)
 		key = m.Key()
+		lastTag, lastProj = "", ""
 		if check && len(path) > 0 {
 			viol = m.Check(path[len(path)-1], last)
+			if tg, ok := m.(Tagger); ok {
+				lastTag = tg.Tag(path[len(path)-1], last)
+				lastProj = tg.Projection()
+			}
 		}
 	})
 	res.Executions++
@@ -153,7 +181,7 @@ func Expand(m Model, job Job) *JobResult {
 	if job.Replay {
 		r, key, last, viol := runPath(m, job.Path, job.Choices, res, true)
 		res.Violations = viol
-		res.Succs = []Succ{{Event: "replay", Result: last, Key: key, Choices: r.Choices}}
+		res.Succs = []Succ{{Event: "replay", Result: last, Key: key, Choices: r.Choices, Tag: lastTag, Proj: lastProj}}
 		return res
 	}
 	// 1. replay the path to learn the enabled events
@@ -198,7 +226,7 @@ func Expand(m Model, job Job) *JobResult {
 					res.Violations = append(res.Violations, v)
 				}
 			}
-			res.Succs = append(res.Succs, Succ{Event: ev, Result: last, Key: key, Choices: append([]int(nil), r.Choices...)})
+			res.Succs = append(res.Succs, Succ{Event: ev, Result: last, Key: key, Choices: append([]int(nil), r.Choices...), Tag: lastTag, Proj: lastProj})
 			for i := len(prefix); i < len(r.Points); i++ {
 				if i < base {
 					continue
@@ -288,6 +316,13 @@ type Stats struct {
 type node struct {
 	path    []string
 	choices []int
+	key     string
+}
+
+type twinEdge struct {
+	from, to string
+	path     []string
+	ev       string
 }
 
 type worker struct {
@@ -383,6 +418,14 @@ func SearchP(pool *Pool, tag string, addViol func(common.Violation), addSample f
 	st := &Stats{Exhaustive: true, Counters: map[string]int{}, PerKind: map[string]int{}, Results: map[string]int{}}
 	seen := map[string]bool{}
 	frontier := []node{{}}
+	// differential oracle: results per (state key, event) and the tagged transitions
+	results := map[string]map[string]map[string]bool{}
+	succOf := map[string]map[string]map[string]bool{} // state key -> event -> successor keys
+	proj := map[string]string{}
+	keyPath := map[string]node{}
+	var twins []twinEdge
+	nodeID := func(path []string, choices []int) string { return strings.Join(path, ",") + "#" + fmt.Sprint(choices) }
+	pathKey := map[string]string{nodeID(nil, nil): "<init>"}
 	// the initial state's key is learnt from the first expansion; count it as a state
 	st.States = 1
 	for depth := 0; depth < maxDepth && len(frontier) > 0; depth++ {
@@ -488,7 +531,34 @@ func SearchP(pool *Pool, tag string, addViol func(common.Violation), addSample f
 			for _, v := range r.Violations {
 				addViol(v)
 			}
+			from, known := pathKey[nodeID(r.Job.Path, r.Job.Choices)]
+			if !known && Twin != nil {
+				panic("space: expansion of an unregistered node " + nodeID(r.Job.Path, r.Job.Choices))
+			}
 			for _, s := range r.Succs {
+				if Twin != nil {
+					if results[from] == nil {
+						results[from] = map[string]map[string]bool{}
+					}
+					if results[from][s.Event] == nil {
+						results[from][s.Event] = map[string]bool{}
+					}
+					results[from][s.Event][s.Result] = true
+					if succOf[from] == nil {
+						succOf[from] = map[string]map[string]bool{}
+					}
+					if succOf[from][s.Event] == nil {
+						succOf[from][s.Event] = map[string]bool{}
+					}
+					succOf[from][s.Event][s.Key] = true
+					proj[s.Key] = s.Proj
+					if _, ok := keyPath[s.Key]; !ok {
+						keyPath[s.Key] = node{path: append(append([]string(nil), r.Job.Path...), s.Event), choices: s.Choices}
+					}
+					if s.Tag == "twin" {
+						twins = append(twins, twinEdge{from: from, to: s.Key, path: append([]string(nil), r.Job.Path...), ev: s.Event})
+					}
+				}
 				st.Transitions++
 				st.PerKind[evKind(s.Event)]++
 				st.Results[evKind(s.Event)+"="+s.Result]++
@@ -496,7 +566,8 @@ func SearchP(pool *Pool, tag string, addViol func(common.Violation), addSample f
 					seen[s.Key] = true
 					st.States++
 					p := append(append([]string(nil), r.Job.Path...), s.Event)
-					next = append(next, node{path: p, choices: s.Choices})
+					next = append(next, node{path: p, choices: s.Choices, key: s.Key})
+					pathKey[nodeID(p, s.Choices)] = s.Key
 					if sampleEvery > 0 && st.States%sampleEvery == 1 {
 						addSample(map[string]any{"path": p, "choices": fmt.Sprint(s.Choices), "last_result": s.Result})
 					}
@@ -512,6 +583,7 @@ func SearchP(pool *Pool, tag string, addViol func(common.Violation), addSample f
 		if !st.Exhaustive {
 			st.FrontierLeft = len(next)
 			st.MaxDepth = depth + 1
+			twinCheck(st, addViol, results, succOf, proj, keyPath, twins)
 			return st
 		}
 		st.DepthDone = depth + 1
@@ -524,7 +596,87 @@ func SearchP(pool *Pool, tag string, addViol func(common.Violation), addSample f
 	if st.DepthDone < maxDepth {
 		st.FrontierLeft = 0
 	}
+	twinCheck(st, addViol, results, succOf, proj, keyPath, twins)
 	return st
+}
+
+// twinCheck runs the differential oracle: for every transition tagged "twin" its two end states are a twin pair;
+// twin states must share their projection and answer every compared event with the same result set, and the
+// successors of a twin pair under the same (deterministic) event are a twin pair again.
+func twinCheck(st *Stats, addViol func(common.Violation), results map[string]map[string]map[string]bool, succOf map[string]map[string]map[string]bool,
+	proj map[string]string, keyPath map[string]node, twins []twinEdge) {
+	if Twin == nil {
+		return
+	}
+	set := func(m map[string]bool) string {
+		var l []string
+		for k := range m {
+			l = append(l, k)
+		}
+		sort.Strings(l)
+		return strings.Join(l, "|")
+	}
+	type pair struct {
+		a, b   string
+		pa, pb []string // event paths reaching the two states
+	}
+	var work []pair
+	for _, tw := range twins {
+		work = append(work, pair{tw.from, tw.to, tw.path, append(append([]string(nil), tw.path...), tw.ev)})
+	}
+	// witness: stored representative path and data choices of the two states (plus the compared event)
+	wit := func(p pair, ev string) map[string]any {
+		na, nb := keyPath[p.a], keyPath[p.b]
+		w := map[string]any{"twin": true, "path": nb.path, "choices": nb.choices, "twin_path": na.path, "twin_choices": na.choices}
+		if ev != "" {
+			w["path"] = append(append([]string(nil), nb.path...), ev)
+			w["twin_path"] = append(append([]string(nil), na.path...), ev)
+		}
+		return w
+	}
+	done := map[string]bool{}
+	for len(work) > 0 {
+		p := work[0]
+		work = work[1:]
+		if done[p.a+"\x00"+p.b] {
+			continue
+		}
+		done[p.a+"\x00"+p.b] = true
+		st.Counters["twin.pairs"]++
+		if pa, ok := proj[p.a]; ok {
+			if pb, ok := proj[p.b]; ok && pa != pb {
+				addViol(common.Violation{Property: Twin.Property, Predicate: Twin.Predicate, Key: Twin.Key + "/state-differs",
+					What:    fmt.Sprintf("the histories %v and %v (the same events, with and without the truncation) end in different ledgers: %s versus %s", p.pa, p.pb, pa, pb),
+					Witness: wit(p, "")})
+				continue
+			}
+		}
+		a, b := results[p.a], results[p.b]
+		if a == nil || b == nil {
+			continue // one of the two states was not expanded (depth bound)
+		}
+		var evs []string
+		for ev := range a {
+			if _, ok := b[ev]; ok && Twin.Compare(ev) {
+				evs = append(evs, ev)
+			}
+		}
+		sort.Strings(evs)
+		for _, ev := range evs {
+			st.Counters["twin.events-compared"]++
+			ra, rb := set(a[ev]), set(b[ev])
+			if ra != rb {
+				addViol(common.Violation{Property: Twin.Property, Predicate: Twin.Predicate, Key: Twin.Key + "/" + evKind(ev) + "/" + ra + "-became-" + rb,
+					What:    fmt.Sprintf("after %v, event %s results in {%s}; after %v it results in {%s}", p.pa, ev, ra, p.pb, rb),
+					Witness: wit(p, ev)})
+				continue
+			}
+			sa, sb := succOf[p.a][ev], succOf[p.b][ev]
+			if len(sa) == 1 && len(sb) == 1 {
+				work = append(work, pair{set(sa), set(sb), append(append([]string(nil), p.pa...), ev), append(append([]string(nil), p.pb...), ev)})
+			}
+		}
+	}
 }
 
 // FillEvidence stores the standard SPACE coverage keys.
